@@ -306,7 +306,7 @@ func c13d(c *Ctx) {
 		} else if pt, _ := g.ReachableFromEntry(Cut{Edges: okE}, atAnySite(ren)); pt != nil {
 			c.Bad(inst, ren[0].Pos(), "the rename is reachable although an error occurred")
 		} else {
-			c.add(Result{Instance: inst, Verdict: Discharged, Sites: sitePositions(ren), Detail: "Rename unreachable unless err == nil", Witnesses: lit.WitEdges(okE)})
+			c.add(Result{Instance: inst, Verdict: Discharged, Sites: sitePositions(ren), Detail: "Rename unreachable unless err == nil", Witnesses: lit.WitEdges(necessaryEdges(g, g.Entry(), okE, ren, Cut{}))})
 		}
 		// rename's own error is recorded
 		recorded := false
